@@ -623,13 +623,24 @@ def r5_block_list(ctx, sym):
                   "a blocked entry does not install disabled_builtin(%r) in both the builtins dict and the namespace "
                   "(installed: %r / %r)" % (name, a_, b_),
                   "student code calling a blocked builtin reaches the real one")
-    # _start_mocking applies the overrides to the student's namespace
+    # _start_mocking applies the overrides to the student's namespace (executed: the C15 start scenario)
     sm = mod.func('Sandbox._start_mocking')
-    ok = any(is_self_call(c, '_mock_builtins') and norm(c.args[0]) == 'self.data' for c in calls(sm)) and \
-        any(is_self_call(c, '_reset_builtins') for c in calls(sm))
-    ctx.check(ok, 'R5', '_start_mocking:applies-overrides', mod, sm,
-              "_start_mocking does not (re)install the builtin overrides into self.data",
-              "blocked builtins are available to student code")
+    from .c15 import start_mocking_observations
+    n_obs = 0
+    for tag, ob in start_mocking_observations(ctx, sym, mod):
+        n_obs += 1
+        rec_, me_ = ob['rec'], ob['me']
+        resets = rec_.named('_reset_builtins')
+        mocks = rec_.named('_mock_builtins')
+        data_ = me_.attrs.get('data')
+        ok = ob['raised'] is None and any(e[1][:1] and e[1][0] is data_ for e in resets) and \
+            any(e[1][:1] and e[1][0] is data_ for e in mocks) and \
+            rec_.order('_reset_builtins', '_mock_builtins')[:1] == ['_reset_builtins']
+        ctx.check(ok, 'R5', '_start_mocking:applies-overrides' + tag, mod, sm,
+                  "_start_mocking does not (re)install the builtin overrides into the student namespace (resets: %d, "
+                  "override passes: %d)" % (len(resets), len(mocks)),
+                  "blocked builtins are available to student code")
+    ctx.floor('R5', 'start scenarios', n_obs, 3)
     # refusing paths raise Exception subclasses
     mm = ctx.repo.module(MOCKED)
     import builtins as _b
@@ -671,9 +682,16 @@ def r5_block_list(ctx, sym):
             ctx.check(outcome[0] == 'returns', 'R5', '_restricted_import:allowed[%s]' % name, mm, ri,
                       "importing %s is refused (%s)" % (name, outcome[1]), "`import %s` fails in the sandbox" % name)
     cm = mod.func('Sandbox.clear_mocks')
-    d = cm.args.defaults
-    ok = bool(d) and isinstance(d[-1], ast.Constant) and d[-1].value is True and \
-        any(is_self_call(c, 'reset_default_overrides') for c in calls(cm))
+    ctx.analysed_function(mod, cm)
+    rec2 = symexec.Recorder()
+    overrides_, modules_ = {'custom': 1, '__builtins__': {'eval': True}}, Obj('modules')
+    symexec.method(modules_, 'clear', rec2.stub('modules.clear'))
+    me2 = symexec.self_obj(mod, 'Sandbox', _module_overrides=overrides_, modules=modules_)
+    symexec.method(me2, 'reset_default_overrides', rec2.stub('reset_default_overrides'))
+    _, raised2 = symexec.run(symexec.new_fd(sym, mod), cm, [], bound_self=me2, what='Sandbox.clear_mocks')
+    ok = raised2 is None and len(rec2.named('reset_default_overrides')) == 1 and \
+        'custom' not in me2.attrs['_module_overrides'] and \
+        (me2.attrs['_module_overrides'].get('__builtins__') or {}).get('eval') is not True
     ctx.check(ok, 'R5', 'clear_mocks:resets-defaults', mod, cm,
               "clear_mocks() does not re-install the default block list", "after clear() nothing is blocked")
     init = mod.func('Sandbox.__init__')
